@@ -1,14 +1,18 @@
 #!/bin/bash
-# tools/mutant_matrix.sh [seed]  : applies every seeded change to /repo in turn, runs the quick tier of the check of
-# its property (meta.json "property"), reverts, and prints one line per change: CAUGHT / MISSED / NOAPPLY
+# tools/mutant_matrix.sh [seed]  : tries every seeded change in a scratch worktree of /repo (GASOL_VERIF_REPO, so /repo
+# itself and background sweeps are untouched), runs the quick tier of the check of its property (meta.json
+# "property") and prints one line per change: CAUGHT / MISSED / NOAPPLY
 cd "$(dirname "$0")/.."
 export VERIF_SEED=${1:-0}
+wt=$(mktemp -d /tmp/wt_matrix_XXXX); rmdir "$wt"
+git -C /repo worktree add --detach "$wt" HEAD -q || exit 2
+trap 'git -C /repo worktree remove --force "$wt"' EXIT
 for d in seeded/*/; do
+  [ -f "$d/meta.json" ] || { echo "NOMETA  $d"; continue; }
   p=$(/venv/bin/python -c "import json,sys;print(json.load(open('$d/meta.json'))['property'])")
-  if ! git -C /repo diff --quiet; then echo "/repo dirty"; exit 2; fi
-  if ! git -C /repo apply "$PWD/$d/patch.diff" 2>/dev/null; then echo "NOAPPLY $d"; continue; fi
-  out=$(./check $p 2>&1); rc=$?
-  git -C /repo checkout -- .
+  git -C "$wt" checkout -q -- .
+  if ! git -C "$wt" apply "$PWD/$d/patch.diff" 2>/dev/null; then echo "NOAPPLY $d"; continue; fi
+  out=$(GASOL_VERIF_REPO="$wt" ./check $p 2>&1); rc=$?
   fp=$(echo "$out" | grep -v KNOWN-FINDING | grep "fingerprint" | head -2 | tr '\n' ' ' | cut -c1-200)
   if [ $rc -eq 1 ]; then echo "CAUGHT  $d $p $fp"; else echo "MISSED  $d $p rc=$rc"; fi
 done
